@@ -166,6 +166,19 @@ theorem C06_layout (r : RuleData) (b : Bytes) (hw : WordsOk r) (h : toWire r = R
       · simp [storeAll, hc, hv, hf, bind, Bind.bind] at h
     · simp [storeAll, hc, hv, bind, Bind.bind] at h
 
+theorem strings_total_le {r : RuleData} (hi : WordsInv r) : r.strings.flatten.length ≤ r.trips.length * 4096 := by
+  have key : ∀ (ss : List Bytes), (∀ s ∈ ss, s.length ≤ 4096) → ss.flatten.length ≤ ss.length * 4096 := by
+    intro ss
+    induction ss with
+    | nil => intro _; simp
+    | cons s ss ih =>
+      intro h
+      have h1 := h s (List.mem_cons_self)
+      have h2 := ih (fun x hx => h x (List.mem_cons_of_mem _ hx))
+      simp only [List.flatten_cons, List.length_append, List.length_cons]
+      omega
+  exact Nat.le_trans (key r.strings hi.strLen) (Nat.mul_le_mul_right 4096 hi.strCount)
+
 theorem wordsOk_of_inv {r : RuleData} (hi : WordsInv r) (hl : r.trips.length ≤ 64) : WordsOk r := by
   refine ⟨hi.flags, hi.action, ?_, ?_, ?_, hi.syscalls, ?_⟩
   · intro w hw
@@ -177,18 +190,7 @@ theorem wordsOk_of_inv {r : RuleData} (hi : WordsInv r) (hl : r.trips.length ≤
   · intro w hw
     obtain ⟨t, ht, rfl⟩ := List.mem_map.mp hw
     exact (hi.trips t ht).2.2
-  · have key : ∀ (ss : List Bytes), (∀ s ∈ ss, s.length ≤ 4096) → ss.flatten.length ≤ ss.length * 4096 := by
-      intro ss
-      induction ss with
-      | nil => intro _; simp
-      | cons s ss ih =>
-        intro h
-        have h1 := h s (List.mem_cons_self)
-        have h2 := ih (fun x hx => h x (List.mem_cons_of_mem _ hx))
-        simp only [List.flatten_cons, List.length_append, List.length_cons]
-        omega
-    have := key r.strings hi.strLen
-    have := hi.strCount
+  · have := strings_total_le hi
     omega
 
 /-- The word-size side conditions of `C06_layout` hold for every rule data the encoder itself
